@@ -64,6 +64,9 @@ pub struct TaskMeta {
 }
 
 pub struct St {
+    /// real-time instant after which the run is abandoned (campaign wall-clock cap)
+    pub deadline: Option<Instant>,
+    pub wall_aborted: bool,
     pub now: Ns,
     pub ch: Chooser,
     /// runnable tasks in wake order (choice 0 = the one that has waited longest)
@@ -125,6 +128,8 @@ impl Sim {
             base,
             st: Mutex::new(St {
                 now: 0,
+                deadline: None,
+                wall_aborted: false,
                 ch,
                 ready: VecDeque::new(),
                 timers: BTreeMap::new(),
@@ -267,6 +272,10 @@ impl Sim {
             });
             if let Some(id) = pick {
                 if self.with(|s| s.steps > max_steps) {
+                    return false;
+                }
+                if self.with(|s| s.steps % 256 == 0 && s.deadline.is_some_and(|d| Instant::now() > d)) {
+                    self.with(|s| s.wall_aborted = true);
                     return false;
                 }
                 let Some(fut) = tasks[id].as_mut() else { continue };
